@@ -23,6 +23,12 @@ func init() {
 			if err != nil {
 				return err
 			}
+			// an explicit transaction that is committed before returning is as durable
+			if cm, err := externalMethods(p, "github.com/dgraph-io/badger/v3", "Txn", "Commit"); err == nil {
+				for f := range cm {
+					upd[f] = true
+				}
+			}
 			sum := newSuccSummary(p, upd)
 			r.Analysed = 2
 			for _, name := range []string{"pkg/objects/badger.(*Store).Set", "pkg/objects/badger.(*Store).Delete"} {
@@ -722,6 +728,10 @@ func init() {
 					if _, ok := x.(*ssa.MakeSlice); ok {
 						fresh = true
 					}
+					// append([]byte(nil), v...) allocates as well
+					if ap, ok := x.(*ssa.Call); ok && isBuiltin(ap, "append") && len(ap.Call.Args) > 0 && isNilConst(stripConv(ap.Call.Args[0])) {
+						fresh = true
+					}
 				}
 				fromParam := false
 				for x := range backward(v, nil) {
@@ -1067,6 +1077,19 @@ func init() {
 							case *ssa.Store:
 								if ia, ok := x.Addr.(*ssa.IndexAddr); ok && D[ia.X] {
 									fills[x] = true
+									// a loop that stores into every element fills the buffer: passing
+									// its header counts (the zero-trip path means an empty buffer)
+									if h := enclosingLoop(b); h != nil && len(h.Instrs) > 0 {
+										early := false
+										for e := range loopExitEdges(h) {
+											if e.from != h {
+												early = true
+											}
+										}
+										if !early {
+											fills[h.Instrs[0]] = true
+										}
+									}
 								}
 							case ssa.CallInstruction:
 								if x == c {
